@@ -399,7 +399,8 @@ _EXTRA = {
             (D2.D9_type_string_parsing, "C18.5 element and hybridisation character are derived correctly from every one of the 221 type labels")],
     "C19": [(D2.D5_torsion_table, "C19 'dihedrals for which no torsion is defined are dropped' rests on dihedral_params returning None exactly for the documented cases"),
             (D2.D6_bond_order_precedence, "C19 term parameters honour the user bond-order rules")],
-    "C20": [(A2.A18c_option_types, "C20 every option delivers the kind of value its use needs; command-line defaults equal the API defaults; library formats go to the library loader/saver"),
+    "C20": [(A2.A18d_option_decisions, "C20 every optional stage runs exactly when its option is given; find/replace decision over the four combinations of -f and -r; minimum-image factor 2*mic/length; flag defaults"),
+            (A2.A18c_option_types, "C20 every option delivers the kind of value its use needs; command-line defaults equal the API defaults; library formats go to the library loader/saver"),
             (A2.A18b_pair_params_parallel, "C20 --pp: one pair coefficient and one label per atom type, in type order"),
             (C.C_axis_diag, "C20 --mic: the cell diagonal is the box only under the exact orthorhombic test")],
 }
